@@ -31,7 +31,9 @@ RULE = (
     "a content (empty, 1 byte, literal bytes, 0-256 KiB of incompressible / "
     "highly compressible / already compressed bytes expanded from a key), how "
     "the temp dir is given (tmpdir= or tempfile.tempdir), an optional "
-    "pre-existing target, and independently one fault for the compress block "
+    "pre-existing compress target (arbitrary bytes or a longer genuine older "
+    "archive), an optional explicit decompress target that may already exist "
+    "with other content (empty / shorter / longer), and independently one fault for the compress block "
     "(exception in the body before / in the middle of / after writing, "
     "copyfileobj raising after k bytes, compressor constructor raising) and "
     "one for the decompress block (body exception, copy fault after k bytes, "
@@ -291,6 +293,13 @@ def run_compress(case, ctx, world, name, target, fmt, via, content):
     U, T, D, W = world["U"], world["T"], world["D"], world["W"]
     cf = case["cfault"]
     pre = case["pre"] if fmt else None
+    if isinstance(pre, dict):
+        # a genuine older archive of the same format that is longer than the
+        # new one can become (incompressible payload, longer than the content)
+        old_payload = hashlib.shake_256(b"c12-old").digest(
+            len(content) + 200 + pre["old_archive"])
+        pre = stdlib_archive(fmt, "older-member", old_payload)
+        ctx.label("pre-existing-longer-archive")
     if pre is not None:
         ctx.label("pre-existing")
         with open(target, "wb") as fh:
@@ -481,6 +490,15 @@ def run_decompress(case, ctx, world, name, target, fmt, via, content,
         xtarget = os.path.join(X, "unpacked.bin")
         kwargs["target"] = xtarget
         ctx.label("target-arg")
+        dpre = case.get("dpre")
+        if dpre is not None and fmt is not None:
+            # the explicit target exists already with other content
+            # (documented: "will be overwritten ... and deleted")
+            size = {"empty": 0, "shorter": len(content) // 2,
+                    "longer": len(content) + 1 + dpre["n"]}[dpre["kind"]]
+            with open(xtarget, "wb") as fh:
+                fh.write((b"OLD-target-bytes/" * (size // 17 + 1))[:size])
+            ctx.label("target-exists", "target-exists-" + dpre["kind"])
     is_corrupt = fmt is not None and df is not None and df["kind"] in (
         "truncate", "bitflip", "other-format")
     inj = df if (df is not None and not is_corrupt) else None
@@ -699,10 +717,14 @@ def cases(draw):
         "chunks": draw(st.integers(1, 4)),
         "tmp": draw(st.sampled_from(["arg", "default"])),
         "dtmp": draw(st.sampled_from(["arg", "default"])),
-        "dtarget": draw(st.sampled_from([False, False, True])),
+        "dtarget": draw(st.sampled_from([False, False, False, True, True])),
+        "dpre": draw(st.one_of(st.none(), st.fixed_dictionaries({
+            "kind": st.sampled_from(["longer", "shorter", "longer", "empty"]),
+            "n": st.integers(0, 300)}))),
         "darchive": draw(st.sampled_from(["typhon", "typhon", "stdlib"])),
-        "pre": draw(st.one_of(st.none(), st.none(),
-                              st.binary(min_size=0, max_size=40))),
+        "pre": draw(st.one_of(
+            st.none(), st.none(), st.binary(min_size=0, max_size=40),
+            st.fixed_dictionaries({"old_archive": st.integers(0, 300)}))),
         "cfault": draw(compress_faults(fmt)),
         "dfault": draw(decompress_faults(fmt)),
     }
@@ -717,7 +739,7 @@ def chunk_boundary_cases():
             "content": {"kind": "expand", "mode": "compressible",
                         "size": BIG, "key": 5},
             "chunks": 3, "tmp": "arg", "dtmp": "default", "dtarget": False,
-            "darchive": "typhon", "pre": None, "cfault": None, "dfault": None,
+            "dpre": None, "darchive": "typhon", "pre": None, "cfault": None, "dfault": None,
         }
 
 
